@@ -272,7 +272,19 @@ func (y *c08Sys) tokenFor(q c08Query) (tok string, viol string) {
 	return tok, ""
 }
 
+// sync-level tier (schedule explorer), present only in overlay builds (build tag verife2)
+var (
+	c08SyncTier   func(t *testing.T, w *explore.Worker, idx *int)
+	c08SyncReplay func(t *testing.T, c explore.Case) explore.Result
+)
+
 func runC08(t *testing.T, c explore.Case) (res explore.Result) {
+	if strings.HasPrefix(c.Unit, "sync;") {
+		if c08SyncReplay == nil {
+			return explore.Result{Viol: "HARNESS: sync tier not built"}
+		}
+		return c08SyncReplay(t, c)
+	}
 	cfgName := strings.TrimPrefix(c.Unit, "cfg=")
 	cfg, ok := dgConfig(cfgName)
 	if !ok {
@@ -481,7 +493,7 @@ func c08Representatives() []string {
 func TestC08(t *testing.T) {
 	w := explore.NewWorker("C08")
 	defer w.Finish()
-	w.SetRule("product of 9 methods x argument shapes (no a / empty a / id only / full / no token / bad token / validly tokened) x 7 transaction-id forms x 3 source forms (IPv4, IPv6, v4-mapped) x 6 configurations as single queries; non-query messages (r, e, unknown y, no y, r with query keys; matched to a pending query or not); all ordered pairs of 12 representative queries delivered back-to-back without waiting and in sequence; every written datagram is decoded with a generic bencode decoder and compared with a reference responder")
+	w.SetRule("product of 9 methods x argument shapes (no a / empty a / id only / full / no token / bad token / validly tokened) x 7 transaction-id forms x 3 source forms (IPv4, IPv6, v4-mapped) x 6 configurations as single queries; non-query messages (r, e, unknown y, no y, r with query keys; matched to a pending query or not); all ordered pairs of 12 representative queries delivered back-to-back without waiting and in sequence; every written datagram is decoded with a generic bencode decoder and compared with a reference responder; sync tier: 4 scenarios of three queries arriving concurrently (same t from three sources, two t from one source, error / silence mixes), all interleavings of the serve loop, reply-goroutine starts and socket writes")
 	idx := 0
 	unit := func(cfg string, hs [][]string) {
 		u := idx
@@ -536,5 +548,8 @@ func TestC08(t *testing.T) {
 			}
 			unit(cfg.Name, hp)
 		}
+	}
+	if c08SyncTier != nil {
+		c08SyncTier(t, w, &idx)
 	}
 }
